@@ -278,7 +278,9 @@ impl Journal {
     ///  zone. Each record is expected to be in the format of an update record
     fn records_up(&self) -> Result<i64, PersistenceError> {
         // we'll be using rowid for our primary key, basically: `rowid INTEGER PRIMARY KEY ASC`
-        let count = self.conn.lock().expect("conn poisoned").execute(
+        // no assertion on the returned count: for a DDL statement it is the stale change count of
+        // the connection's previous INSERT/UPDATE (0 on a freshly opened connection)
+        self.conn.lock().expect("conn poisoned").execute(
             "CREATE TABLE records (
                                           \
                                             client_id      INTEGER NOT NULL,
@@ -292,8 +294,6 @@ impl Journal {
                                             )",
             [],
         )?;
-        //
-        assert_eq!(count, 1);
 
         Ok(1)
     }
